@@ -308,6 +308,11 @@ func (c01) Eval(c *Chooser, env *Env) *Outcome {
 				if t == explicitCfg {
 					mustFatal, mustIdx = "the configuration file given with -config-file cannot be read ("+kind+")", len(w.Faults)-1
 				}
+				if containsStr(cfgs, t) && t != explicitCfg && mustFatal == "" {
+					// a repository's own configuration: a read error other than "does not exist" is
+					// fatal on every route - if the run got as far as reading it (the hit is checked below)
+					mustFatal, mustIdx = "a repository's configuration file cannot be read ("+kind+")", len(w.Faults)-1
+				}
 			}
 		case k == 7: // by I/O operation index, whatever the path
 			kinds := []string{kern.FReadEIO, kern.FStatErr, kern.FTorn}
